@@ -318,8 +318,33 @@ def seq_cases(widths=(1, 4)):
 FAMILIES = {'OP': build_op, 'EXPR': build_expr, 'SEQ': build_seq}
 
 
+def always_double_writes(block):
+    """True when NO input/state avoids two enabled writes to one address of a memory in a cycle (then the documented
+    'undefined' exemption leaves nothing to check and every harness's assumption would be vacuous)"""
+    if not any(n.op == '@' for n in block.logic):
+        return False
+    import z3
+    from . import spec
+    from .simdrv import Vars
+    sp = spec.run(block, 1, Vars('dw_'), reg_init='sym', mem_init='sym')
+    if not sp.double_write:
+        return False
+    s = z3.Solver()
+    s.add(*[z3.Not(d) for d in sp.double_write])
+    return s.check() == z3.unsat
+
+
 def build(desc):
     pyrtl.reset_working_block()
+    if desc['fam'] == 'EXPR':
+        # seeded designs that can only ever double-write are replaced by the next seed (deterministic in desc)
+        for attempt in range(8):
+            d = dict(desc, seed=desc['seed'] + 7919 * attempt)
+            pyrtl.reset_working_block()
+            b = FAMILIES['EXPR'](d)
+            if not always_double_writes(b):
+                return b
+        return b
     return FAMILIES[desc['fam']](desc)
 
 
